@@ -80,12 +80,12 @@ PROPS["C19"] = {
 
 PROPS["C14"] = {
     "props": ["OsmVerif.Props.C14"],
-    "gens": [],
+    "gens": ["Annotate"],
     "required_theorems": ["emitted_nodup", "emitted_have_history", "requested_with_history_emitted", "acyclic_children_first",
-                          "walk_fuel_sufficient", "close_no_deadlock", "close_producer_terminates"],
+                          "walk_fuel_sufficient", "close_no_deadlock", "close_producer_terminates", "producer_protocol_pinned"],
     "technique": "Lean 4 theorems (invariant 'every added id has a history none of whose members is on the caller's path'; rank argument for DAGs; slack measure for termination) about a hand-written executable model of the child-first walk, plus a small transition system for Close; tied by a differential line protocol",
     "level_text": "Machine-checked proof for every reference graph (cycles, self loops, missing histories, multi-version member lists), every request list and any fuel that the model of the walk never emits an id twice or an id without history, emits every requested id that has a history, emits children before parents on acyclic graphs, and that fuel |histories|+1 is never exhausted (termination on every graph); for the goroutine: after cancellation the producer always has an enabled step and returns within two of its own steps. The walk model is hand-written and run against annotate.NewChildFirstOrdering on ~15k generated graphs/stop points per run.",
-    "level_note": "Trusted: Lean kernel; correspondence harness. PARTIAL: Close liveness is proved on a 3-state transition system of the producer that is hand-abstracted from order.go and validated only by deadline/goroutine-count tests; scheduler fairness is assumed. Relation ids are non-zero (Next treats 0 as end of stream).",
+    "level_note": "Trusted: Lean kernel; correspondence harness. PARTIAL: Close liveness is proved on a 3-state transition system of the producer whose premises (one channel send, in a select with a Done branch, after the ctx test; Close cancels and waits; wait group and close(out) deferred) are pinned against the statements regenerated from order.go; that the goroutine is scheduled at all (fairness) is assumed, and the deadline/goroutine-count tests of the harness observe it. Relation ids are non-zero (Next treats 0 as end of stream).",
     "design_ref": "DESIGN.md §5 C14",
     "trusted_base": ["model Model/Walk.lean is hand-written; tie = differential stream (./check C14)",
                      "producer/consumer transition system in Props/C14.lean abstracts order.go by hand"],
